@@ -54,7 +54,7 @@ pub fn gen_c12_base(src: &mut Src<'_>) -> C12Base {
 	let flat = sem.target_flat(target);
 	for p in &flat.pos {
 		if src.chance(45) {
-			steps.push((0, Step::PhantomHold { leaf: p.leaf, shared: src.chance(100) }));
+			steps.push((0, Step::PhantomHold { leaf: p.leaf, shared: src.chance(100), transient: src.chance(128) }));
 		}
 	}
 	let fault_step;
